@@ -14,7 +14,8 @@ CLAIMED = {
               'operators are evaluated by TLC on the whole bounded domain and every row is replayed on the real classes '
               '(exhaustive in the bound), and recorded call histories on real objects with lengths up to 5000 are '
               'validated by TLC against SliceSelTrace.tla.  Unbounded: Apalache discharges the inductive invariant of the error-diffusion sampler (SampleInd.tla) for all N < n.  In situ: every Slice / Sample object created by the LAS converters on generated files and by the repository test_Slice.py is recorded and validated against SliceSelTrace.tla.'),
-        note='Trusts TLC, the Json community module and the harness rendering of option-string part classes; steps >= 1 only.',
+        note=('Trusts TLC, the Json community module and the harness rendering of option-string part classes; steps of either sign (never 0); '
+              'call histories include two generators of one object walked in lockstep and a call made in the middle of a walk.'),
         technique='TLA+ spec + TLC model checking; spec-derived exhaustive replay; TLC trace validation'),
     'C16': dict(
         category='model_checking', design='3/C16',
@@ -130,8 +131,9 @@ CLAIMED = {
               '*_len helpers are compared exactly; the three code-68 implementations are compared bit for bit with each other '
               'and with the specification decoder on 10^6 (quick) / 2*10^7 (thorough) sampled words and doubles, including the '
               're-encoding and precision laws on the real to68.'),
-        note=('The 2^32 sweep is sampled enumeration in the harness, not TLC. Not judged: LIS code 50 with negative exponent field, '
-              'VSINGL values (conflicting sources offline), FDOUBL. Known finding F17 (to68(-2^127)).'),
+        note=('The 2^32 sweep is sampled enumeration in the harness, not TLC. Not judged: LIS code 50 with negative exponent field, FDOUBL. '
+              'VSINGL: the offline sources support two readings of the fraction weight; both are tabulated by TLC (every exponent, both signs) '
+              'and the implementation must follow one of them on every pattern. Known finding F17 (to68(-2^127)).'),
         technique='TLA+ reference operators + TLC-checked encoder laws and TLC-written oracle tables; exact comparison of all implementations'),
     'C20': dict(
         category='model_checking', design='3/C20',
@@ -170,10 +172,11 @@ CLAIMED = {
               'conformant record sequence of <= 4 (5) records over 15 record kinds incl. alternate data, and every sequence '
               '(LisIndexTable) is rendered as a real file and indexed by the real FileIndex: listed records at true positions in '
               'order, every log pass with its frame count and first X.  The planner: LisPlan.tla transcribes FrameSetPlan.genEvents; TLC '
-              'checks every plan in the bound with an abstract byte-cursor interpreter and the real planner must emit exactly the '
-              'exported plan for every case (LisPlanTable).'),
-        note=('The planner itself is not transcribed: its real output is validated as a trace. Known finding F11 (implied X after a '
-              'record change) is recognised by exact emulation. Slices are bounded ones with step >= 1 (API restriction).'),
+              'checks every plan in the bound with an abstract byte-cursor interpreter; the real planner is compared with the exported plan '
+              'for every case (LisPlanTable) and a differing real plan is judged by the same interpreter (LisPlanJudge), not by equality.  '
+              'Loaded values are also read back through FrameSet.value(frame, channel, sub-channel, sample, burst) in LIS-79 order.'),
+        note=('Known finding F11 (implied X after a record change) is recognised by exact emulation. '
+              'Slices are bounded ones with step >= 1 (API restriction of LogPass.setFrameSet).'),
         technique='TLA+ spec + TLC model checking of the plan interpreter; TLC trace validation of real plans and results'),
     'C03': dict(
         category='model_checking', design='3/C03',
@@ -212,7 +215,10 @@ CLAIMED = {
               '(rows by unique X, columns by name, printed STRT/STOP/STEP as scaled integers) and each run is validated by TLC against '
               'ToLasTrace.tla (rows = Python slice exactly / a sample of at most N increasing from frame 0, columns = X + requested, well section = '
               'first/last/mean spacing of the written rows, result tuple, file gate for foreign formats); values are compared with the recorded '
-              'content within the print precision and every output must be accepted by the real LASRead with the same shape.'),
+              'content within the print precision and every output must be accepted by the real LASRead with the same shape.  The cut of a LIS '
+              'index into logical files (one LAS file per log pass) is LisSplit.tla: TLC checks the loop against the declarative statement for '
+              'every entry sequence <= 6, refutes the two earlier designs (F24, F30) and every sequence <= 4 (5) is rendered as a real LIS file '
+              'and converted.'),
         note=('Known findings F3-C11, F11-C11, F21, F22, F23 are recognised by exact signature/emulation.  An empty selection may be reported as '
               'failure or as a file without rows.  RP66V1 ORIGIN carries the attributes the converter reads.'),
         technique='TLA+ spec + TLC model checking of the converter designs; TLC trace validation of real conversion runs'),
